@@ -51,6 +51,30 @@ type Val struct {
 	Items  []*Val   // list items, set members, map values
 	Keys   []string // map keys (sorted), parallel to Items
 	Raised bool
+	// an error that wraps another (fmt.Errorf("%s%w", prefix, base)): S is the whole message, Base the message of the
+	// wrapped error; every error of one message is built around ONE Go error value, so a wrapping error and the error
+	// it wraps are related by errors.Is although they are different values with different messages
+	Wraps bool
+	Base  string
+}
+
+var (
+	baseErrMu sync.Mutex
+	baseErrs  = map[string]error{}
+)
+
+func baseErr(msg string) error {
+	baseErrMu.Lock()
+	defer baseErrMu.Unlock()
+	e, ok := baseErrs[msg]
+	if !ok {
+		e = errors.New(msg)
+		baseErrs[msg] = e
+	}
+	return e
+}
+func vErrW(prefix, base string, raised bool) *Val {
+	return &Val{T: "error", S: prefix + base, Raised: raised, Wraps: true, Base: base}
 }
 
 func vInt(i int64) *Val     { return &Val{T: "int", I: i} }
@@ -152,6 +176,9 @@ func (v *Val) key() string {
 		sort.Strings(parts)
 		return "S{" + strings.Join(parts, ",") + "}"
 	case "error":
+		if v.Wraps {
+			return "e:" + strconv.FormatBool(v.Raised) + ":" + strconv.Quote(v.S) + ":w" + strconv.Itoa(len(v.Base))
+		}
 		return "e:" + strconv.FormatBool(v.Raised) + ":" + strconv.Quote(v.S)
 	}
 	panic("bad val")
@@ -193,6 +220,9 @@ func okey(o object.Object) string {
 		sort.Strings(parts)
 		return "S{" + strings.Join(parts, ",") + "}"
 	case *object.Error:
+		if inner := errors.Unwrap(o.Value()); inner != nil {
+			return "e:" + strconv.FormatBool(o.IsRaised()) + ":" + strconv.Quote(o.Value().Error()) + ":w" + strconv.Itoa(len(inner.Error()))
+		}
 		return "e:" + strconv.FormatBool(o.IsRaised()) + ":" + strconv.Quote(o.Value().Error())
 	case nil:
 		return "gonil"
@@ -238,7 +268,10 @@ func (v *Val) obj() object.Object {
 		}
 		return s
 	case "error":
-		return object.NewError(errors.New(v.S)).WithRaised(v.Raised)
+		if v.Wraps {
+			return object.NewError(fmt.Errorf("%s%w", strings.TrimSuffix(v.S, v.Base), baseErr(v.Base))).WithRaised(v.Raised)
+		}
+		return object.NewError(baseErr(v.S)).WithRaised(v.Raised)
 	}
 	panic("bad val")
 }
@@ -333,7 +366,7 @@ func (v *Val) src() string {
 		}
 		return "{" + strings.Join(parts, ", ") + "}"
 	case "error":
-		if v.Raised {
+		if v.Raised || v.Wraps {
 			return "" // a raised error is not expressible as a script value: passed as a global
 		}
 		return "errors.new(" + quoteStr(v.S) + ")"
@@ -565,7 +598,8 @@ func universeU(k int, thorough bool) *Universe {
 	} {
 		u.add(s)
 	}
-	for _, e := range []*Val{vErr("x", true), vErr("x", false), vErr("y", true), vErr("", false)} {
+	for _, e := range []*Val{vErr("x", true), vErr("x", false), vErr("y", true), vErr("", false),
+		vErrW("ctx: ", "x", true), vErrW("ctx: ", "x", false), vErr("ctx: x", false), vErrW("", "y", true), vErrW("outer: ", "ctx: x", false)} {
 		u.add(e)
 	}
 	sub := []*Val{
@@ -736,7 +770,11 @@ func universeV(seed int64, m, k int) *Universe {
 			}
 			u.add(vSet(items...))
 		default:
-			u.add(vErr(pick(isStr).S, r.Intn(2) == 0))
+			if r.Intn(3) == 0 {
+				u.add(vErrW(pick(isStr).S, pick(isStr).S, r.Intn(2) == 0))
+			} else {
+				u.add(vErr(pick(isStr).S, r.Intn(2) == 0))
+			}
 		}
 	}
 	// sub-universe for sort/set inputs: numerics, strings, lists, a few others
@@ -804,6 +842,8 @@ func (u *Universe) spec() []any {
 		case "error":
 			n["s"] = v.S
 			n["raised"] = v.Raised
+			n["wraps"] = v.Wraps
+			n["base"] = v.Base
 		case "list", "set", "map":
 			items := []any{}
 			for _, x := range v.Items {
@@ -844,6 +884,9 @@ func decVal(n N) *Val {
 	case "error":
 		v.S = n["s"].(string)
 		v.Raised = n["raised"].(bool)
+		if w, ok := n["wraps"].(bool); ok && w {
+			v.Wraps, v.Base = true, n["base"].(string)
+		}
 	case "list", "set", "map":
 		for _, x := range n["items"].([]any) {
 			v.Items = append(v.Items, decVal(x.(map[string]any)))
